@@ -368,6 +368,43 @@ def r17_3(ctx):
                 ctx.ob("chunk-reader:checked-indexing", ok, site(b, bb), "captured bytes are `&buf[..len]` through the bounds-checked Index impl (a lying reader panics cleanly)" if ok else f"captured bytes come from {src.get('def') if src else '?'}")
 
 
+# libyaml's yaml_event_type_t (yaml.h; the numbering is part of its ABI) and which events carry heap allocations that
+# only yaml_event_delete frees: document-start (version and tag directives), alias (anchor), scalar (anchor, tag,
+# value), sequence-start and mapping-start (anchor, tag)
+_YAML_EVENT_TYPES = {0: "NO_EVENT", 1: "STREAM_START", 2: "STREAM_END", 3: "DOCUMENT_START", 4: "DOCUMENT_END", 5: "ALIAS", 6: "SCALAR", 7: "SEQUENCE_START", 8: "SEQUENCE_END", 9: "MAPPING_START", 10: "MAPPING_END"}
+_YAML_OWNING_EVENTS = (3, 5, 6, 7, 9)
+
+
+def _event_types_not_deleted(b, delete_bb):
+    """Owning event types for which Drop body b can reach its return without passing the delete call: the body is
+    re-analysed once per type with the event's `type_` discriminant pinned (interval analysis, infeasible edges pruned)."""
+    import ival
+
+    tlocals = set()
+    for bi in sorted(b.reach()):
+        for s_ in b.blocks[bi]["stmts"]:
+            if s_["k"] == "assign" and not s_["p"]["pr"] and s_["rv"]["k"] in ("discr", "use"):
+                pl = s_["rv"]["p"] if s_["rv"]["k"] == "discr" else (s_["rv"]["op"]["p"] if is_place(s_["rv"]["op"]) else None)
+                if pl and pl["pr"] and pl["pr"][-1].get("k") == "field" and pl["pr"][-1].get("name") == "type_":
+                    tlocals.add(s_["p"]["l"])
+    if not tlocals:
+        # no test of the event type at all: the plain path rule decides
+        return [] if b.must_pass(0, b.return_blocks(), [delete_bb]) else ["(all)"]
+    out = []
+    for v in _YAML_OWNING_EVENTS:
+        iv = ival.Interval(b, assume={l: ((v, v),) for l in tlocals})
+        feas = set(iv.entry) | set(iv.threaded)
+        rets = [r for r in b.return_blocks() if r in feas]
+        if rets and _reach_avoiding(b, feas, delete_bb, rets):
+            out.append(_YAML_EVENT_TYPES[v])
+    return out
+
+
+def _reach_avoiding(b, feas, avoid, rets):
+    r = b.reachable_from(0, removed_nodes=[x for x in range(len(b.blocks)) if x not in feas or x == avoid])
+    return any(x in r for x in rets)
+
+
 @rule("R17.4", 7, "ownership pairing and order: into_raw/from_raw pair up; libyaml parser deleted before its read state is freed; assume_init only after a successful parse", ["C17"])
 def r17_4(ctx):
     lib = ctx.lib
@@ -438,6 +475,11 @@ def r17_4(ctx):
                 ctx.ob(f"assume_init:{b.name}:after-successful-parse", ok, site(b, bb), "the event is assumed initialised only when yaml_parser_parse reported success" if ok else "assume_init on a path where libyaml did not initialise the event")
             if f.get("crate") == "unsafe_libyaml" and f.get("name") == "yaml_event_delete":
                 ctx.ob(f"event_delete:{b.name}:only-in-drop", b in drops, site(b, bb), "events are deleted by their Drop impl only")
+                if b in drops:
+                    leaks = _event_types_not_deleted(b, bb)
+                    ctx.ob(f"event_delete:{b.name}:for-every-owning-event-type", not leaks, site(b, bb),
+                           "Drop reaches yaml_event_delete for every event type that owns heap data (document-start, alias, scalar, sequence-start, mapping-start)" if not leaks else
+                           f"Drop can return without yaml_event_delete for event type(s) {leaks}: libyaml allocated their directives / anchor / tag / value, which now leak with every such event")
 
 
 @rule("R17.5", 3, "who may dereference the shared read state: only the `&mut self` accessor and the callback; the parser runs only under `&mut self`", ["C17"])
